@@ -2015,7 +2015,8 @@ func decodeRunes(s string, n int) (string, int) {
 // not valid hex.
 func parseRune(hex string) rune {
 
-	n, err := strconv.ParseInt(hex, 16, 32)
+	// ParseUint, unlike ParseInt, does not accept a sign.
+	n, err := strconv.ParseUint(hex, 16, 32)
 	if err != nil {
 		return -1
 	}
